@@ -124,7 +124,7 @@ func (v *VerifGen) GenMPD(newSeqNr uint32) error {
 	return v.g.generateSegmentTimelineNrMPD(slog.Default(), newSeqNr, v.ch, 0)
 }
 
-// ReadMPD parses the written MPD: per AdaptationSet startNumber and expanded (t,d) list.
+// ReadMPD parses the written MPD: per AdaptationSet startNumber, the listed Representation ids and expanded (t,d) list.
 func (v *VerifGen) ReadMPD() (string, error) {
 	path := filepath.Join(v.ch.dir, timelineNrMPD)
 	if _, err := os.Stat(path); err != nil {
@@ -142,7 +142,11 @@ func (v *VerifGen) ReadMPD() (string, error) {
 		if st.StartNumber != nil {
 			sn = *st.StartNumber
 		}
-		fmt.Fprintf(&sb, "sn=%d:", sn)
+		ids := make([]string, 0, len(as.Representations))
+		for _, rep := range as.Representations {
+			ids = append(ids, rep.Id)
+		}
+		fmt.Fprintf(&sb, "sn=%d@%s:", sn, strings.Join(ids, "+"))
 		if st.SegmentTimeline != nil {
 			t := uint64(0)
 			for _, s := range st.SegmentTimeline.S {
